@@ -226,7 +226,21 @@ func runC09(c *ctx) error {
 	// for it (pubkey.GetPublicKeyJWK) must still be the matching key of what it signs
 	keys = append(keys, world.ShortCoordinateKey())
 	thorough := c.tier == "thorough"
-	add := func(label string, compact string, v jwkVariant, expect string) {
+	// addD: detached == nil is the plain call. With a non-empty detached payload D the library is called with
+	// WithJWSDetachedPayload(D), and the model is asked about the compact JWS whose payload segment IS D: the option means
+	// "the payload is D, whatever the payload segment holds" (oracle detached_payload_overrides_embedded: the real verifier
+	// gives the same verdict on that equivalent compact form).
+	var addD func(label string, compact string, detached []byte, v jwkVariant, expect string)
+	add := func(label string, compact string, v jwkVariant, expect string) { addD(label, compact, nil, v, expect) }
+	addD = func(label string, given string, detached []byte, v jwkVariant, expect string) {
+		compact := given
+		if len(detached) > 0 {
+			gp := strings.Split(given, ".")
+			if len(gp) != 3 {
+				return
+			}
+			compact = gp[0] + "." + rawURL.EncodeToString(detached) + "." + gp[2]
+		}
 		hf := hdrFacts{b64: "B64Absent"}
 		parts := strings.Split(compact, ".")
 		if len(parts) == 3 {
@@ -245,10 +259,29 @@ func runC09(c *ctx) error {
 					pan = fmt.Sprint(x)
 				}
 			}()
+			if len(detached) > 0 {
+				var got []byte
+				_, got, verr = verifhooks.VerifyJWSDetached(given, v.jwk, detached)
+				if verr == nil && string(got) != string(detached) {
+					r.Direct = append(r.Direct, out.Direct{Oracle: "detached_payload_is_the_payload", What: fmt.Sprintf("returned %q", got),
+						Case: map[string]interface{}{"class": label, "given": given, "detached": string(detached)}})
+				}
+				_, _, eerr := verifhooks.VerifyJWS(compact, v.jwk)
+				if (eerr == nil) != (verr == nil) {
+					r.Direct = append(r.Direct, out.Direct{Oracle: "detached_payload_overrides_embedded",
+						What: fmt.Sprintf("with the option: %v; equivalent compact form: %v", verr, eerr),
+						Case: map[string]interface{}{"class": label, "jwk": v.label, "given": given, "detached": string(detached), "equivalent": compact}})
+				}
+				return
+			}
 			_, _, verr = verifhooks.VerifyJWS(compact, v.jwk)
 		}()
 		accepted := verr == nil && pan == ""
 		desc := map[string]interface{}{"class": label, "jwk": v.label, "compact": compact, "jwk_value": v.jwk, "accepted": accepted, "panic": pan}
+		if len(detached) > 0 {
+			desc["given"] = given
+			desc["detached_payload"] = string(detached)
+		}
 		if verr != nil {
 			desc["error"] = verr.Error()
 		}
@@ -314,6 +347,18 @@ func runC09(c *ctx) error {
 				}
 				genuine := world.CompactJWS(hdr, pl, k)
 				add("genuine", genuine, matching, "accept")
+				// the detached-payload option: the payload is what the caller supplies, whatever the payload segment holds
+				{
+					gp := strings.Split(genuine, ".")
+					other := append([]byte("other-"), pl...)
+					addD("detached:same-payload", genuine, pl, matching, "accept")
+					addD("detached:empty-segment", gp[0]+".."+gp[2], pl, matching, "accept")
+					addD("detached:segment-holds-another-payload", gp[0]+"."+rawURL.EncodeToString(other)+"."+gp[2], pl, matching, "accept")
+					addD("detached:segment-not-base64", gp[0]+".@@."+gp[2], pl, matching, "accept")
+					addD("detached:payload-never-signed", genuine, other, matching, "reject")
+					addD("detached:payload-never-signed-empty-segment", gp[0]+".."+gp[2], other, matching, "reject")
+					addD("detached:foreign-key", genuine, pl, variants[len(variants)-1], "reject")
+				}
 				// the library's own signing utilities
 				if s, err := verifhooks.SignPayload(pl, k.Signer); err == nil {
 					add("genuine:library-signed", s, matching, "accept")
